@@ -876,6 +876,34 @@ var plusDaysExceptions = map[string]string{
 	"klog/service/period.NewWeekFromString":         "operates on July 1st of the flag's year and at most 53 weeks around it: inside 0000..9999 except for W52/W53 of 9999 (flag value, not file content; recorded under C15)",
 }
 
+// derivesFromRecordDate: v is <Record>.Date(), possibly stepped (PlusDays) or chosen among
+// several values one of which is.
+func derivesFromRecordDate(v ssa.Value, depth int) bool {
+	if depth > 4 || v == nil {
+		return false
+	}
+	v = strip(v)
+	if ph, ok := v.(*ssa.Phi); ok {
+		for _, e := range ph.Edges {
+			if derivesFromRecordDate(e, depth+1) {
+				return true
+			}
+		}
+		return false
+	}
+	n, recv, _, mc := methodCall(v)
+	if mc == nil || recv == nil {
+		return false
+	}
+	switch n {
+	case "Date":
+		return typeNameOf(recv.Type()) == "Record"
+	case "PlusDays":
+		return derivesFromRecordDate(recv, depth+1)
+	}
+	return false
+}
+
 func plusDaysReceiver(site ssa.CallInstruction) ssa.Value {
 	cc := site.Common()
 	if cc.IsInvoke() {
@@ -913,6 +941,14 @@ func (c *panicCtx) dischargePlusDays(key string, f *ssa.Function, pn *ssa.Panic)
 		caller := closureSuffix.ReplaceAllString(fnName(originFn(owner)), "")
 		seen[caller]++
 		k := fmt.Sprintf("PlusDays:%s", caller)
+		// an exception that rests on "the receiver is the clock date" holds for every step in that
+		// function only as long as none of them starts from a record's date (file content)
+		if why := plusDaysExceptions[caller]; strings.HasPrefix(why, "receiver is the clock date") {
+			if recv := plusDaysReceiver(site); recv != nil && derivesFromRecordDate(recv, 0) {
+				r.bad(rule, k+":record-date", p.instrPos(site), "Date.PlusDays (panics outside 0000-9999) is applied to a record's date here: a record dated at the end of the representable range (0000-01-01, 9999-12-31) crashes the command; the exception for %s covers steps from the clock date only", caller)
+				continue
+			}
+		}
 		if seen[caller] > 1 {
 			continue // one obligation per calling function
 		}
